@@ -22,6 +22,7 @@ const repoMod = "github.com/enbility/spine-go"
 
 // Prog is the loaded and resolved program, shared by all engines.
 type Prog struct {
+	scopeRoots map[string][]*ssa.Function
 	scopes     map[*ssa.Function]*helperScope
 	helperCand map[*ssa.Function]bool
 	helperSite map[*ssa.Function]ssa.CallInstruction
